@@ -440,6 +440,7 @@ inductive Ev
   | enter (p : Path) (k : Key) (o : Obj) (trav : Bool)
   | exit (id : Nat)
   | visit (p : Path) (k : Key) (src val : Obj)
+deriving DecidableEq
 
 inductive Err | typeError | visitError
 deriving DecidableEq, Repr
@@ -579,5 +580,77 @@ def enterLog : List Ev → List (Path × Key × Obj)
   | [] => []
   | .enter p k o _ :: r => (p, k, o) :: enterLog r
   | _ :: r => enterLog r
+
+/-! ### the memoised bottom-up recursion (heap-level specification) -/
+
+/-- the part of the loop state the recursion threads through -/
+structure RSt where
+  reg : List (Nat × Obj)
+  out : Heap
+  trace : List Ev
+
+/-- the items a visit contributes to the parent (`none` = the visit raised and `reraise_visit` is set) -/
+def visitOut (c : HCfg) (out : Heap) (p : Path) (k : Key) (val : Obj) : Option (List (Key × Obj)) :=
+  match c.vf out p k val with
+  | .keep => some [(k, val)]
+  | .drop => some []
+  | .repl k' v' => some [(k', v')]
+  | .raise => if c.reraise then none else some [(k, val)]
+
+mutual
+/-- rebuilt counterpart of `o` (memoised through `reg`; a container is registered before its
+    children are rebuilt, so that back references terminate) -/
+def recVal (c : HCfg) (h : Heap) (root : Obj) : Nat → Path → Key → Obj → RSt → Option (RSt × Obj)
+  | 0, _, _, _, _ => none
+  | n + 1, p, k, o, st =>
+    match o with
+    | .atom _ => some ({ st with trace := st.trace ++ [.enter p k o false] }, o)
+    | .ref id =>
+      match lookup id st.reg with
+      | some v => some (st, v)
+      | none =>
+        match h[id]? with
+        | none => some ({ st with trace := st.trace ++ [.enter p k o false] }, o)
+        | some nd =>
+          match recItems c h root n (if o = root then p else p ++ [k]) (enumItems nd.kind 0 nd.items) []
+              ⟨(id, .ref st.out.length) :: st.reg, st.out ++ [⟨nd.kind, []⟩],
+               st.trace ++ [.enter p k o true]⟩ with
+          | none => none
+          | some (st2, items) =>
+            some (⟨(id, (exitNode nd.kind st.out.length items st2.out).2) :: st2.reg,
+                   (exitNode nd.kind st.out.length items st2.out).1, st2.trace ++ [.exit id]⟩,
+                  (exitNode nd.kind st.out.length items st2.out).2)
+/-- rebuild the items of one container left to right, visiting each rebuilt item -/
+def recItems (c : HCfg) (h : Heap) (root : Obj) :
+    Nat → Path → List (Key × Obj) → List (Key × Obj) → RSt → Option (RSt × List (Key × Obj))
+  | 0, _, _, _, _ => none
+  | _ + 1, _, [], acc, st => some (st, acc)
+  | n + 1, p, (k, o) :: rest, acc, st =>
+    match recVal c h root n p k o st with
+    | none => none
+    | some (st1, val) =>
+      match visitOut c st1.out p k val with
+      | none => none
+      | some its =>
+        recItems c h root n p rest (acc ++ its) { st1 with trace := st1.trace ++ [.visit p k o val] }
+end
+
+/-- `remap(root)` as a recursion: the root container is entered with key `None` and the empty
+    path, its items are rebuilt, and its own result is returned without being visited -/
+def recRoot (c : HCfg) (h : Heap) (root : Obj) (n : Nat) : Option (RSt × Obj) :=
+  match root with
+  | .atom _ => none
+  | .ref id =>
+    match h[id]? with
+    | none => none
+    | some nd =>
+      match recItems c h root n [] (enumItems nd.kind 0 nd.items) []
+          ⟨[(id, .ref 0)], [⟨nd.kind, []⟩], [.enter [] .none root true]⟩ with
+      | none => none
+      | some (st2, items) =>
+        some (⟨(id, (exitNode nd.kind 0 items st2.out).2) :: st2.reg,
+               (exitNode nd.kind 0 items st2.out).1, st2.trace ++ [.exit id]⟩,
+              (exitNode nd.kind 0 items st2.out).2)
+
 
 end C08
